@@ -120,7 +120,8 @@ def Hist.afterStep (h : Hist) (s : Step) : Hist :=
         { h with pendingSubscribe := (mid, (tit, tid, name, q)) :: h.pendingSubscribe }
     | some (.regack tid mid rc) =>
         if rc == 0 then
-          match h.gwRegisters.find? (fun (m, i, _) => m == mid && i == tid) with
+          -- a REGACK answers the REGISTER with its message ID (the gateway does not look at the topic ID)
+          match h.gwRegisters.find? (fun (m, _, _) => m == mid) with
           | some (_, i, n) => { h with clientKnows := (i, n) :: h.clientKnows, bound := (i, n) :: h.bound }
           | none => h
         else h
@@ -599,7 +600,16 @@ def c11 (tr : List TE) : List Viol :=
           []
         else []
       | some (.connect ..) => []
-      | some (.disconnect _) => []
+      | some (.disconnect d) =>
+        -- a sleeping client repeating its DISCONNECT (the reply got lost): answered at once, and
+        -- whatever has been queued for it stays queued
+        if d != 0 && h.asleep && h.live s then
+          let after := (h.afterStep s).gwBuf
+          (if sent.any (fun b => decode b == .ok (Header.new Gen.tDISCONNECT 0, .disconnect 0)) then [] else
+            [{ sig := "repeated-sleep-request-not-answered", detail := s!"t={s.t}" : Viol }]) ++
+          (if isSubseq (h.gwBuf.map clearDup) (after.map clearDup) then [] else
+            [{ sig := "queued-packet-dropped-on-repeated-sleep-request", detail := s!"t={s.t}" : Viol }])
+        else []
       | _ =>
         if h.asleep && !sent.isEmpty && !s.hasEnded then
           [{ sig := "datagram-sent-to-sleeping-client", detail := s!"t={s.t}" }]
@@ -703,5 +713,120 @@ def c06 (cfg : Cfg) (tr : List TE) : List Viol :=
   vs
 
 /-! ## C25 / leaks are decided on the raw log by the driver (panic and leak lines) -/
+
+end Bisquitt.Spec
+
+namespace Bisquitt.Spec
+open Bisquitt Bisquitt.Gw
+
+/-! ## C02 — broker PUBLISH reaches the client under a topic ID it can resolve -/
+
+/-- a broker PUBLISH the gateway can relay at all (C23/C24: oversize and empty-topic messages are dropped) -/
+def relayable (topic payload : Bytes) : Bool :=
+  !topic.isEmpty && topic.length ≤ Gen.MaxPayloadLength && payload.length ≤ Gen.MaxPayloadLength
+
+def c02 (cfg : Cfg) (tr : List TE) : List Viol :=
+  let (_, _, _, _, vs) := (steps tr).foldl
+    (fun (acc : Hist × List (Bytes × Bytes × UInt8 × Bool) × List (UInt16 × UInt16) × List (UInt16 × UInt16 × Nat) × List Viol) s =>
+    let (h, seen, regacked, regTimes, vs) := acc
+    let h' := h.afterStep s
+    let v (sig : String) (d : String) : List Viol := [{ sig := sig, detail := s!"t={s.t} {d}" }]
+    -- broker PUBLISHes seen so far, including this step's
+    let seen := match s.mqIn with
+      | some (.publish _ q r _ topic payload) => (topic, payload, q, r) :: seen
+      | _ => seen
+    let allOuts : List Pkt := (s.outs ++ s.later).filterMap fun (_, o) => match o with
+      | .sn b => (match decode b with | .ok (_, p) => some p | _ => none)
+      | _ => none
+    -- safety: every PUBLISH sent to the client is a broker message, under an ID the client reads as its topic
+    let v1 := allOuts.flatMap fun p => match p with
+      | .publish _ q r tit tid _ data =>
+        let cands := seen.filter fun (_, pl, q2, r2) => pl == data && q2 == q && r2 == r
+        if cands.isEmpty then v "publish-without-broker-publish" s!"tit={tit} id={tid}"
+        else
+          let names := clientReads cfg h' tit tid
+          if names.length > 1 then v "topic-id-ambiguous-for-client" s!"tit={tit} id={tid}"
+          else if cands.any fun (topic, _, _, _) => names.contains topic then []
+          -- a string SUBSCRIBE in flight: the gateway has bound an ID the client learns from the SUBACK
+          else if tit == 0 && names.isEmpty && (cands.any fun (topic, _, _, _) => h'.subscribedNames.contains topic) then []
+          else if names.isEmpty then v "client-cannot-resolve-topic-id" s!"tit={tit} id={tid}"
+          else v "client-reads-other-name" s!"tit={tit} id={tid}"
+      | _ => []
+    -- liveness: a relayable broker PUBLISH to an active client is answered at once by the PUBLISH or by a REGISTER for its name
+    let v2 := match s.mqIn with
+      | some (.publish _ q r _ topic payload) =>
+        if connected h && h.live s && h.gwState == CState.active && relayable topic payload && q ≤ 2 && !h.exhaustedSeen then
+          let ok := s.snOuts.any fun p => match p with
+            | .publish _ q2 r2 _ _ _ data => data == payload && q2 == q && r2 == r
+            | .register _ _ name => name == topic
+            | .suback _ _ _ rc => rc != 0
+            | _ => false
+          if ok then [] else v "broker-publish-not-relayed" s!"qos={q} topic-len={topic.length}"
+        else []
+      | _ => []
+    -- liveness: the first accepted REGACK for a gateway REGISTER releases the PUBLISH under the registered ID
+    let (v3, regacked) := match s.snIn with
+      | some (.regack _ mid rc) =>
+        (match h.gwRegisters.find? (fun (m, _, _) => m == mid) with
+         | some (_, tid, _) =>
+           if rc == 0 && !regacked.contains (mid, tid) then
+             let ok := s.snOuts.any fun p => match p with
+               | .publish _ _ _ tit tid2 _ _ => tit == 0 && tid2 == tid
+               | _ => false
+             -- the gateway waits for the REGACK for (RetryCount + 1) * RetryDelay after the first REGISTER
+             let inTime := match regTimes.find? (fun (m, i, _) => m == mid && i == tid) with
+               | some (_, _, t0) => s.t < t0 + (cfg.retryCount + 1) * cfg.retryDelay
+               | none => false
+             ((if connected h && h.live s && h.gwState == CState.active && inTime && !ok then
+                 v "publish-not-sent-after-regack" s!"id={tid}" else []), (mid, tid) :: regacked)
+           -- a refusal ends the exchange as well
+           else ([], if rc != 0 then (mid, tid) :: regacked else regacked)
+         | none => ([], regacked))
+      | _ => ([], regacked)
+    -- first time each gateway REGISTER was issued (sent, or queued for a sleeping client)
+    let regOf := fun (t : Nat) (b : Bytes) => match decode b with
+      | .ok (_, .register tid mid _) => [((mid, tid, t) : UInt16 × UInt16 × Nat)]
+      | _ => []
+    let issued : List (UInt16 × UInt16 × Nat) := (s.outs ++ s.later).flatMap fun (x : Nat × Out) =>
+      match x.2 with
+      | Out.sn b => regOf x.1 b
+      | Out.buf l => l.flatMap (regOf x.1)
+      | _ => []
+    let regTimes : List (UInt16 × UInt16 × Nat) := issued.foldl (fun (acc : List (UInt16 × UInt16 × Nat)) (e : UInt16 × UInt16 × Nat) =>
+      if acc.any (fun e2 => e2.1 == e.1 && e2.2.1 == e.2.1) then acc else e :: acc) regTimes
+    (h', seen, regacked, regTimes, vs ++ v1 ++ v2 ++ v3)) ({ endedAt := endedAtOf tr }, [], [], [], [])
+  vs
+
+/-! ## C16 — QoS 1/2 delivery to clients: retransmissions -/
+
+/-- Gateway side of C16 on one trace: every retransmission of a PUBLISH / REGISTER / PUBREL to
+    the client repeats an earlier datagram of the same exchange with only the DUP flag changed
+    (same message ID and payload), a given datagram goes out at most 1 + RetryCount times, and a
+    PUBACK / PUBREC / PUBCOMP of the client is relayed to the broker at most once per exchange. -/
+def c16 (cfg : Cfg) (tr : List TE) : List Viol :=
+  let snOf := fun (l : List (Nat × Out)) => l.filterMap fun (x : Nat × Out) => match x.2 with
+    | Out.sn b => (match decode b with
+      | .ok (_, .publish ..) | .ok (_, .register ..) | .ok (_, .pubrel ..) => some (x.1, b)
+      | _ => none)
+    | _ => none
+  -- (datagrams sent in answer to an input, datagrams sent by timers), oldest first
+  let (direct, timed, vs) := (steps tr).foldl (fun (acc : List Bytes × List Bytes × List Viol) s =>
+    let (direct, timed, vs) := acc
+    let now := (snOf s.outs).map (·.2)
+    let v := (snOf s.later).flatMap fun (x : Nat × Bytes) =>
+      let known := (direct ++ now ++ timed).any fun b => clearDup b == clearDup x.2
+      (match decode x.2 with
+       | .ok (_, .publish dup ..) =>
+         if dup then [] else [{ sig := "retransmission-without-dup", detail := s!"t={x.1}" : Viol }]
+       | _ => []) ++
+      (if known then [] else [{ sig := "retransmission-of-a-datagram-never-sent", detail := s!"t={x.1}" : Viol }])
+    (direct ++ now, timed ++ (snOf s.later).map (·.2), vs ++ v)) ([], [], [])
+  -- budget: at most RetryCount timer-driven copies per transmission the gateway made on its own
+  let keys := (timed.map clearDup).eraseDups
+  vs ++ keys.flatMap fun k =>
+    let nt := (timed.filter fun b => clearDup b == k).length
+    let nd := (direct.filter fun b => clearDup b == k).length
+    if nt > cfg.retryCount * (max nd 1) then
+      [{ sig := "retransmitted-beyond-budget", detail := s!"timer-copies={nt} direct={nd}" : Viol }] else []
 
 end Bisquitt.Spec
